@@ -152,6 +152,26 @@ func stepMinterBlocks(ta *TestApp, ctx sdk.Context, times []time.Time, denom str
 			o.obs = append(o.obs, bi(int64(e.SequenceId)), e.AmountMinted.BigInt())
 		}
 		o.obs = append(o.obs, evAmt) // not part of the model comparison: stripped by the caller
+		// probe (a query, no block): the inflation reported at the very instant the current exponential-step period ends
+		// (-2: not applicable, -1: panic / error, otherwise the reported value)
+		probe := bi(-2)
+		for _, m := range k.GetParams(bctx).Minters {
+			if m.SequenceId != s.SequenceId || m.EndTime == nil || !m.EndTime.After(t) {
+				continue
+			}
+			if cfg, err := m.GetMinterConfig(); err == nil {
+				if _, isExp := cfg.(*mintertypes.ExponentialStepMinting); isExp {
+					probe = bi(-1)
+					func() {
+						defer func() { _ = recover() }()
+						if r, err := k.Inflation(sdk.WrapSDKContext(bctx.WithBlockTime(*m.EndTime)), &mintertypes.QueryInflationRequest{}); err == nil {
+							probe = r.Inflation.BigInt()
+						}
+					}()
+				}
+			}
+		}
+		o.obs = append(o.obs, probe)
 		obs = append(obs, o)
 		hist = nil
 		for _, e := range h {
@@ -483,8 +503,13 @@ func minterBlockTerms(rep *Report, c minterCfg, cid int, times []time.Time, obs 
 			blocks = append(blocks, zPair(zI(times[bi_].UnixNano()), "[(-1)]"))
 			break
 		}
-		ev := o.obs[len(o.obs)-1]
-		mo := o.obs[:len(o.obs)-1]
+		ev := o.obs[len(o.obs)-2]
+		probe := o.obs[len(o.obs)-1]
+		mo := o.obs[:len(o.obs)-2]
+		if probe.Cmp(bi(-2)) != 0 {
+			rep.Eval("C19.zero_at_the_end_instant_of_an_exponential_period", probe.Sign() == 0, cid, bi_,
+				fmt.Sprintf("inflation %v reported at the instant the current exponential-step period ends (nothing is emitted from then on)", probe))
+		}
 		blocks = append(blocks, zPair(zI(times[bi_].UnixNano()), zListB(mo)))
 		tot.Add(tot, o.minted)
 		rep.Eval("C02.amount_nonnegative", o.minted.Sign() >= 0, cid, bi_, fmt.Sprintf("minted %v", o.minted))
